@@ -390,7 +390,7 @@ def run(rep):
 def check_group_unwrap(rep, arm, pname):
     s = show(arm["body"])
     ok = ("if (<T, A>::len(expressions) Ne length) {optimiser::%s(Expression::BooleanGroup(symbol, expressions))} else {if (<T, A>::len(expressions) Eq 1) "
-          "{<T>::expect(Iterator::next(IntoIterator::into_iter(expressions)), could not get expression)} else {Expression::BooleanGroup(symbol, expressions)}}" % pname) in s
+          "{<T>::expect(Iterator::next(IntoIterator::into_iter(expressions)), \"..\")} else {Expression::BooleanGroup(symbol, expressions)}}" % pname) in s
     rep.check(ok, "PASS-ARMS", "PASS-ARMS/%s/group-tail" % pname, arm["sp"], "group arm ends: re-run if the length changed, unwrap a group of one, else rebuild with the same symbol", s[-160:])
     # operands are shaken in order in both symbol branches
     loops = [n for n in walk(arm["body"]) if n.get("k") == "For" and show(n["iter"]) == "expressions"]
